@@ -24,6 +24,7 @@ def _sha(line):
 class C16(Spec):
     prop = "C16"
     needs_factx = True
+    extra_generated = ["Access.lean"]
     lean_modules = ["SonicSpec.Props.C16"]
     rule = ("conc cases: K in {2..32} goroutines, 1-4 documented read operations each (Get/Index/GetByPath/IndexOrGet paths + "
             "typed accessors, Interface, Map, Array, Raw, MarshalJSON), one shared node from NewRawConcurrentRead / "
